@@ -984,3 +984,34 @@ S('y-degenerate-names-as-set', ['C11', 'C09'], [(TDR,
   "                    entry[:-len('.trashinfo')] not in ('', '.', '..'):",
   "                    entry not in ('.trashinfo', '..trashinfo', '...trashinfo'):")],
   'degenerate names excluded by their full spelling')
+
+# ------------------------------------------------------------------ round 6 rules
+ASKING = 'trashcli/restore/restore_asking_the_user.py'
+FORMAT_INFO = 'trashcli/put/format_trash_info.py'
+GUARD = 'trashcli/empty/guard.py'
+F('r6-move-failure-counts-as-trashed', {'C16': ['R16.5']}, [(PUTDIR,
+  "            return Left(UnableToMoveFileToTrash(error))",
+  "            return Right(None) if isinstance(error, IOError) and not error.args else Left(UnableToMoveFileToTrash(error))")],
+  'a failed move can be reported as trashed')
+F('r6-index-leading-zeros-stripped', {'C13': ['R13.8']}, [(ASKING,
+  "        return int(text)", "        return int(text.lstrip('+0') or '0')")],
+  'the piece converted is rewritten: "+" and "000" parse as index 0')
+S('r6-index-stripped-first', ['C13'], [(ASKING,
+  "        return int(text)", "        return int(text.strip())")],
+  'blanks around the piece stripped by hand: same numbers accepted')
+F('r6-date-one-hour-back', {'C03': ['R03.3']}, [(FORMAT_INFO,
+  '    return deletion_date.strftime("%Y-%m-%dT%H:%M:%S")',
+  '    import datetime as _dt\n    return (deletion_date - _dt.timedelta(hours=1)).strftime("%Y-%m-%dT%H:%M:%S")')],
+  'the date written is the clock reading minus an offset')
+S('r6-date-via-local', ['C03'], [(FORMAT_INFO,
+  '    return deletion_date.strftime("%Y-%m-%dT%H:%M:%S")',
+  '    moment = deletion_date\n    return moment.strftime("%Y-%m-%dT%H:%M:%S")')],
+  'clock reading through a local')
+F('r6-generator-handed-on-after-prompt', {'C09': ['R09.8']}, [(GUARD,
+  "        trash_dirs_list = list(trash_dirs)  # type: Iterable[TrashDir]",
+  "        trash_dirs_list = iter(trash_dirs)  # type: Iterable[TrashDir]")],
+  'the interactive branch no longer materialises the generator')
+S('r6-generator-materialised-as-tuple', ['C09'], [(GUARD,
+  "        trash_dirs_list = list(trash_dirs)  # type: Iterable[TrashDir]",
+  "        trash_dirs_list = tuple(trash_dirs)  # type: Iterable[TrashDir]")],
+  'materialised as a tuple instead of a list')
